@@ -24,7 +24,7 @@ func one(html, eng string) (out string) {
 					}
 				}
 			}
-			out = fmt.Sprintf("PANIC %v @ %s", r, site)
+			out = fmt.Sprintf("PANIC %v @ %s", r, site); if os.Getenv("STACK") != "" { out += "\n" + st }
 		}
 	}()
 	res, err := render.Render(render.Options{HTML: html, Engine: eng, PageBound: 60})
@@ -36,6 +36,23 @@ func one(html, eng string) (out string) {
 
 func main() {
 	eng := "pango"
+	if len(os.Args) == 3 && os.Args[1] == "-dump" {
+		b, _ := os.ReadFile(os.Args[2])
+		for _, l := range strings.Split(string(b), "\n") {
+			p := strings.SplitN(l, "\x00", 3)
+			if len(p) != 3 {
+				continue
+			}
+			r := one(p[2], p[1])
+			if !strings.HasPrefix(r, "ok ") {
+				if len(r) > 150 {
+					r = r[:150]
+				}
+				fmt.Printf("%s\t%s\n", r, p[0])
+			}
+		}
+		return
+	}
 	for _, f := range os.Args[1:] {
 		if f == "-gotext" {
 			eng = "gotext"
